@@ -22,19 +22,55 @@ def main():
     nsys = 60 if quick else 1500
     ops, recs = [], []
     tries = 0
-    while len(recs) < nsys and tries < nsys * 4:
+    ntie = 25 if quick else 400
+    while len(recs) < nsys + ntie and tries < (nsys + ntie) * 4:
         tries += 1
-        ncomp = rnd.randint(1, 4)
-        scale = rnd.choice([20, 150, 600, 1500, 4000])
-        text, sysmass, marks, fr = sysrun.build_system(rnd, ncomp, scale)
-        system = sysrun.parse_system(text, sysmass)
+        tie = len(recs) >= nsys
+        if tie:
+            # exact tie: the system mass is exactly the accumulated (binary64) mass of the first k members of a dry run with the
+            # same generator stream -> iteration must stop after exactly k members (`<`, not `<=`)
+            ncomp = rnd.randint(1, 3)
+            marks = sysrun.MARKERS[:]
+            rnd.shuffle(marks)
+            marks = marks[:ncomp]
+            cuts = sorted(rnd.sample(range(1, 100), ncomp - 1)) if ncomp > 1 else []
+            fr = [b - a for a, b in zip([0] + cuts, cuts + [100])]
+            bodies = [rnd.choice(["C", "CC", "CCO", "CCN", "CCCC", "OCCO", "CC(C)C"]) + mk for mk in marks]
+            text = "".join(f"{b}.|{float(f)!r}%|" for b, f in zip(bodies, fr))
+            dry = sysrun.parse_system(text, 1e6)
+            if dry is None:
+                continue
+            k = rnd.randint(1, 6)
+            rng0 = Recorder(ck.seed * 7 + tries)
+            members0 = []
+            import gbigsmiles as _g
+            old = _g.System.generator.fget.__defaults__
+            _g.System.generator.fget.__defaults__ = (rng0,)
+            try:
+                for mg in dry.generator:
+                    members0.append(float(mg.weight))
+                    if len(members0) >= k:
+                        break
+            finally:
+                _g.System.generator.fget.__defaults__ = old
+            acc = 0.0
+            for w in members0:
+                acc += w
+            sysmass = acc
+            system = sysrun.parse_system(text, sysmass)
+            ck.count("exact-tie-systems")
+        else:
+            ncomp = rnd.randint(1, 4)
+            scale = rnd.choice([20, 150, 600, 1500, 4000])
+            text, sysmass, marks, fr = sysrun.build_system(rnd, ncomp, scale)
+            system = sysrun.parse_system(text, sysmass)
         if system is None:
             continue
         try:
             generable = bool(system.generable)
         except Exception:
             continue
-        single = rnd.random() < 0.2
+        single = (not tie) and rnd.random() < 0.2
         rng = Recorder(ck.seed * 7 + tries)
         members, error, log = sysrun.run_system(system, rng, single=single)
         if error is not None and genrun.is_c11_draw_failure(error):
@@ -51,8 +87,19 @@ def main():
         rec = dict(text=text, sysmass=sysmass, marks=marks, fr=fr, system=system, generable=generable, single=single, infos=infos,
                    error=error, log=log, M=M)
         recs.append(rec)
+        # ties: where the implementation's accumulated (binary64) mass hits the system mass within 1e-9, the exact-rational model is
+        # steered along the implementation's own decision (DESIGN.md 5.4); the oracle below decides such cases on the floats
+        Mm = M if M is not None else 0.0
+        if M is not None and error is None and not single:
+            acc = 0.0
+            for k, i in enumerate(infos):
+                acc += i["mass"]
+                if abs(acc - M) <= 1e-9 * max(1.0, abs(M)):
+                    stopped = (k == len(infos) - 1)
+                    Mm = M * (1 - 1e-6) if stopped else M * (1 + 1e-6)
+                    ck.count("ties_followed_along_impl_branch")
         ops.append({"op": "SYSGEN", "comps": comps, "ev": events_json(log), "fuel": 100000, "single": single,
-                    "M": frac(M if M is not None else 0.0), "generable": generable})
+                    "M": frac(Mm), "generable": generable})
     outs = ck.driver.run(ops)
     for rec, out in zip(recs, outs):
         inp = {"text": rec["text"], "system_mass": rec["sysmass"], "single": rec["single"], "history": genrun.history(rec["log"])[:60]}
